@@ -221,6 +221,9 @@ class COwner(HasTraits):
     """module level, so that instances pickle"""
     s = Set(CInt)
 
+    def __len__(self):
+        return len(self.__dict__.get("s", ()))
+
     def _s_items_changed(self, ev):
         ITEMS_LOG.append((set(ev.removed), set(ev.added)))
 
@@ -236,6 +239,10 @@ class Harness:
 
             class Owner(HasTraits):
                 s = Set(CInt)
+
+                def __len__(self):
+                    # collection-like model: falsy while its set is empty
+                    return len(self.__dict__.get("s", ()))
 
                 def _s_items_changed(self, ev):
                     items.append((set(ev.removed), set(ev.added)))
